@@ -775,4 +775,401 @@ theorem sqrtrem1_sq (a : Nat) (h1 : B / 4 ≤ a) (h2 : a < B) :
   exact ⟨i2, b2⟩
 
 
+
+/-! ### mpn_dc_sqrtrem -/
+
+
+/-- the contract of mpn_sqrtrem2 on a normalised two-limb operand: `{np0, np1} = sp0² + cc·B + rp0`,
+    `0 ≤ cc`, remainder at most `2·sp0`. -/
+def Sqrtrem2Spec : Prop := ∀ np0 np1, np0 < B → B / 4 ≤ np1 → np1 < B →
+  (sqrtrem2 np0 np1).1 * (sqrtrem2 np0 np1).1 +
+      ((sqrtrem2 np0 np1).2.2 * (B : Int) + ((sqrtrem2 np0 np1).2.1 : Int)).toNat = np1 * B + np0 ∧
+  ((sqrtrem2 np0 np1).2.2 * (B : Int) + ((sqrtrem2 np0 np1).2.1 : Int)).toNat ≤ 2 * (sqrtrem2 np0 np1).1
+
+theorem dcBase_spec (h2 : Sqrtrem2Spec) (N : Nat) (hN1 : B ^ 2 ≤ 4 * N) (hN2 : N < B ^ 2) :
+    (dcBase N).1 * (dcBase N).1 + (dcBase N).2 = N ∧ (dcBase N).2 ≤ 2 * (dcBase N).1 := by
+  have hB := B_eq
+  rw [pow_two] at hN1 hN2
+  have hb : N / B < B := Nat.div_lt_of_lt_mul hN2
+  have hnp1 : N / B % B = N / B := Nat.mod_eq_of_lt hb
+  have hlo : B / 4 ≤ N / B := by
+    rw [Nat.le_div_iff_mul_le B_pos]
+    have : B / 4 * 4 = B := by rw [hB]
+    nlinarith
+  obtain ⟨c1, c2⟩ := h2 (N % B) (N / B % B) (Nat.mod_lt _ B_pos) (by rw [hnp1]; exact hlo)
+    (by rw [hnp1]; exact hb)
+  unfold dcBase
+  dsimp only
+  generalize sqrtrem2 (N % B) (N / B % B) = res at *
+  obtain ⟨s, r, cc⟩ := res
+  dsimp only at c1 c2 ⊢
+  unfold dcBaseOut
+  dsimp only
+  refine ⟨?_, c2⟩
+  rw [c1, hnp1, Nat.mul_comm]; exact Nat.div_add_mod N B
+
+/-- Zimmermann's combination step at value level. -/
+theorem dcCombine_spec (l N s1 r1 : Nat) (hs : B ^ l ≤ 2 * s1) (hr : r1 ≤ 2 * s1)
+    (hi : s1 * s1 + r1 = N / (B ^ l * B ^ l)) :
+    (dcCombine l N (s1, r1)).1 * (dcCombine l N (s1, r1)).1 + (dcCombine l N (s1, r1)).2 = N ∧
+    (dcCombine l N (s1, r1)).2 ≤ 2 * (dcCombine l N (s1, r1)).1 := by
+  have hβ : 0 < B ^ l := pow_pos B_pos _
+  unfold dcCombine
+  dsimp only
+  generalize B ^ l = β at *
+  have hs0 : 0 < s1 := by omega
+  -- the two low digits
+  have ha1 : N / β % β < β := Nat.mod_lt _ hβ
+  have ha0 : N % β < β := Nat.mod_lt _ hβ
+  have hNdec : N = N / (β * β) * (β * β) + N / β % β * β + N % β := by
+    have e1 := Nat.div_add_mod N β
+    have e2 := Nat.div_add_mod (N / β) β
+    rw [Nat.div_div_eq_div_mul] at e2
+    nlinarith
+  -- quotient by s1, parity bit, halving
+  have hdm := Nat.div_add_mod (r1 * β + N / β % β) s1
+  have hus := Nat.mod_lt (r1 * β + N / β % β) hs0
+  have hc := Nat.div_add_mod ((r1 * β + N / β % β) / s1) 2
+  have hc2 := Nat.mod_lt ((r1 * β + N / β % β) / s1) (by norm_num : 0 < 2)
+  generalize (r1 * β + N / β % β) / s1 = qs at *
+  generalize (r1 * β + N / β % β) % s1 = us at *
+  generalize hqd : qs / 2 = q at *
+  generalize hcd : qs % 2 = c at *
+  obtain ⟨u, hu⟩ : ∃ u, (if c ≠ 0 then us + s1 else us) = u := ⟨_, rfl⟩
+  rw [hu]
+  have hu1 : 2 * s1 * q + u = r1 * β + N / β % β := by
+    have : c = 0 ∨ c = 1 := by omega
+    rcases this with rfl | rfl
+    · simp at hu; subst hu; nlinarith
+    · simp at hu; subst hu; nlinarith
+  have hu2 : u < 2 * s1 := by
+    have : c = 0 ∨ c = 1 := by omega
+    rcases this with rfl | rfl
+    · simp at hu; omega
+    · simp at hu; omega
+  obtain ⟨hq, hA, hC⟩ := zstep β s1 r1 (N / β % β) (N % β) q u (s1 * β + q) hs hr ha1 ha0 hu1 hu2 rfl
+  rw [hi, ← hNdec] at hA hC
+  by_cases hneg : u * β + N % β < q * q
+  · obtain ⟨c1, c2, c3, c4⟩ := hC hneg
+    have hlt : ((u * β + N % β : Nat) : Int) - ((q * q : Nat) : Int) < 0 := by omega
+    rw [if_pos hlt]
+    dsimp only
+    have e : (((u * β + N % β : Nat) : Int) - ((q * q : Nat) : Int) + 2 * ((s1 * β + q : Nat) : Int) - 1).toNat
+        = u * β + N % β + (2 * (s1 * β + q) - 1) - q * q := by omega
+    rw [e]
+    exact ⟨c3, c4⟩
+  · obtain ⟨c1, c2⟩ := hA (Nat.le_of_not_lt hneg)
+    have hge : ¬ ((u * β + N % β : Nat) : Int) - ((q * q : Nat) : Int) < 0 := by omega
+    rw [if_neg hge]
+    dsimp only
+    have e : (((u * β + N % β : Nat) : Int) - ((q * q : Nat) : Int)).toNat = u * β + N % β - q * q := by omega
+    rw [e]
+    exact ⟨c1, c2⟩
+
+
+theorem dcSqrtremF_spec (h2 : Sqrtrem2Spec) : ∀ (fuel n N : Nat), 0 < n → n ≤ fuel →
+    B ^ (2 * n) ≤ 4 * N → N < B ^ (2 * n) →
+    (dcSqrtremF fuel n N).1 * (dcSqrtremF fuel n N).1 + (dcSqrtremF fuel n N).2 = N ∧
+    (dcSqrtremF fuel n N).2 ≤ 2 * (dcSqrtremF fuel n N).1
+  | 0, n, N, hn, hf, _, _ => by omega
+  | fuel + 1, n, N, hn, hf, hN1, hN2 => by
+    rw [dcSqrtremF, if_neg (by omega)]
+    by_cases h1 : n = 1
+    · subst h1
+      rw [if_pos rfl]
+      exact dcBase_spec h2 N (by simpa using hN1) (by simpa using hN2)
+    · rw [if_neg h1]
+      have hl : 0 < n / 2 := by omega
+      have hh : n / 2 ≤ n - n / 2 := by omega
+      have hsum : 2 * n = 2 * (n / 2) + 2 * (n - n / 2) := by omega
+      have hX : 0 < B ^ (2 * (n / 2)) := pow_pos B_pos _
+      have hXl : B ^ (2 * (n / 2)) = B ^ (n / 2) * B ^ (n / 2) := by rw [← pow_add]; congr 1; omega
+      rw [hsum, pow_add] at hN1 hN2
+      -- B^(2h) = 4·H², B^h = 2·H
+      obtain ⟨H, hH⟩ : ∃ H, B ^ (n - n / 2) = 2 * H := by
+        obtain ⟨m, hm⟩ : ∃ m, n - n / 2 = m + 1 := ⟨n - n / 2 - 1, by omega⟩
+        exact ⟨B ^ m * 2 ^ 63, by rw [hm, pow_succ]; unfold B; ring⟩
+      have hY : B ^ (2 * (n - n / 2)) = 4 * (H * H) := by
+        rw [Nat.mul_comm 2, pow_mul, hH]; ring
+      have hBl : B ^ (n / 2) ≤ B ^ (n - n / 2) := Nat.pow_le_pow_right B_pos hh
+      rw [hY] at hN1 hN2
+      generalize hNh : N / B ^ (2 * (n / 2)) = Nh at *
+      have hNh2 : Nh < 4 * (H * H) := by
+        rw [← hNh]; exact Nat.div_lt_of_lt_mul hN2
+      have hNh1 : H * H ≤ Nh := by
+        rw [← hNh, Nat.le_div_iff_mul_le hX]; nlinarith
+      obtain ⟨i1, i2⟩ := dcSqrtremF_spec h2 fuel (n - n / 2) Nh (by omega) (by omega)
+        (by rw [hY]; omega) (by rw [hY]; exact hNh2)
+      generalize dcSqrtremF fuel (n - n / 2) Nh = hi at *
+      obtain ⟨s1, r1⟩ := hi
+      simp only at i1 i2
+      have hs1 : H ≤ s1 := by
+        by_contra hc
+        have h3 : s1 + 1 ≤ H := by omega
+        have h4 : (s1 + 1) * (s1 + 1) ≤ H * H := Nat.mul_le_mul h3 h3
+        have h5 : (s1 + 1) * (s1 + 1) = s1 * s1 + 2 * s1 + 1 := by ring
+        omega
+      exact dcCombine_spec (n / 2) N s1 r1 (by omega) i2 (by rw [← hXl, ← hNh] at *; exact i1)
+
+/-- mpn_dc_sqrtrem is correct on normalised operands, given the contract of its base case mpn_sqrtrem2. -/
+theorem dcSpec_of_sqrtrem2 (h2 : Sqrtrem2Spec) : DcSpec := by
+  intro n N hn h1 hlt
+  exact dcSqrtremF_spec h2 n n N hn (Nat.le_refl _) h1 hlt
+
+
+
+/-! ### mpn_sqrtrem2 -/
+
+
+/-- the subtraction loop of mpn_sqrtrem2: with `r ≤ 2s`, `0 < s` it returns `(qhl, r - qhl·s)`, `qhl ≤ 2`. -/
+theorem sqrtrem2Sub_spec (s r : Nat) (hs : 0 < s) (hr : r ≤ 2 * s) (hs32 : s < 4294967296) :
+    ∃ qhl r', sqrtrem2Sub 4 0 r s = (qhl, r') ∧ qhl ≤ 2 ∧ r = qhl * s + r' ∧ r' < s ∧
+      (qhl = 2 → r' = 0) := by
+  have hB := B_eq
+  have hsB : s < B := by omega
+  have w : ∀ x, x ≥ s → x < B → wsub x s = x - s := by
+    intro x h1 h2; unfold wsub; rw [hB] at *; omega
+  by_cases h1 : r ≥ s
+  · by_cases h2 : r - s ≥ s
+    · refine ⟨2, 0, ?_, by omega, by omega, by omega, by omega⟩
+      have : r = 2 * s := by omega
+      subst this
+      have e1 : wsub (2 * s) s = s := by rw [w _ (by omega) (by rw [hB] at *; omega)]; omega
+      have e2 : wsub s s = 0 := by rw [w _ (by omega) hsB]; omega
+      simp [sqrtrem2Sub, e1, e2, Nat.not_le.mpr hs]
+      omega
+    · refine ⟨1, r - s, ?_, by omega, by omega, by omega, by omega⟩
+      have e1 : wsub r s = r - s := w _ h1 (by rw [hB] at *; omega)
+      simp [sqrtrem2Sub, e1, h1, h2]
+  · refine ⟨0, r, ?_, by omega, by omega, by omega, by omega⟩
+    simp [sqrtrem2Sub, h1]
+
+
+
+theorem boolToNat_decide (p : Prop) [Decidable p] : boolToNat (decide p) = if p then 1 else 0 := by
+  by_cases h : p <;> simp [boolToNat, h]
+
+/-- sqrtrem.c:236-240: adding `S` (possibly `S = B`, stored as 0) and then `S − 1` with carries. -/
+theorem sqrtrem2AddBack_spec (S rp : Nat) (cc : Int) (V : Nat) (hrp : rp < B) (hS1 : 1 ≤ S) (hS2 : S ≤ B)
+    (hval : cc * (B : Int) + (rp : Int) + (2 * S - 1 : Nat) = (V : Int)) :
+    ∃ rp' cc', sqrtrem2AddBack (S % B) rp cc = (S - 1, rp', cc') ∧ (cc' * (B : Int) + (rp' : Int)).toNat = V := by
+  have hB := B_eq
+  unfold sqrtrem2AddBack
+  dsimp only
+  have hw : wsub (S % B) 1 = S - 1 := by unfold wsub; rw [B_eq] at *; omega
+  rw [hw, boolToNat_decide, boolToNat_decide]
+  refine ⟨_, _, rfl, ?_⟩
+  · 
+    have : (cc + ((if S % B ≠ 0 then (if rp + S % B ≥ B then 1 else 0) else 1 : Nat) : Int)
+        + ((if (if S % B ≠ 0 then (rp + S % B) % B else rp) + (S - 1) ≥ B then 1 else 0 : Nat) : Int)) * (B : Int)
+        + ((((if S % B ≠ 0 then (rp + S % B) % B else rp) + (S - 1)) % B : Nat) : Int) = (V : Int) := by
+      rw [B_eq] at *
+      by_cases h0 : S % 18446744073709551616 ≠ 0
+      · rw [if_pos h0, if_pos h0]
+        by_cases h1 : rp + S % 18446744073709551616 ≥ 18446744073709551616
+        · rw [if_pos h1]
+          by_cases h2 : (rp + S % 18446744073709551616) % 18446744073709551616 + (S - 1) ≥ 18446744073709551616
+          · rw [if_pos h2]; omega
+          · rw [if_neg h2]; omega
+        · rw [if_neg h1]
+          by_cases h2 : (rp + S % 18446744073709551616) % 18446744073709551616 + (S - 1) ≥ 18446744073709551616
+          · rw [if_pos h2]; omega
+          · rw [if_neg h2]; omega
+      · rw [if_neg h0, if_neg h0]
+        by_cases h2 : rp + (S - 1) ≥ 18446744073709551616
+        · rw [if_pos h2]; omega
+        · rw [if_neg h2]; omega
+    rw [this, Int.toNat_natCast]
+
+
+/-- sqrtrem.c:232-241: subtract `q²` (and `qhl·B`) from the two-limb remainder `T = cch·B + rp`, and
+    correct once if that went negative. -/
+theorem sqrtrem2Fix_spec (S cch rp qq qh T QQ : Nat) (hrp : rp < B) (hqq : qq < B) (hS1 : 1 ≤ S)
+    (hS2 : S ≤ B) (hT : cch * B + rp = T) (hQQ : qq + qh * B = QQ) (hA : QQ ≤ T → S < B)
+    (hC : T < QQ → QQ ≤ T + (2 * S - 1)) :
+    ∃ sp rp' cc', sqrtrem2Fix (S % B) cch rp qq qh = (sp, rp', cc') ∧
+      (QQ ≤ T → sp = S ∧ (cc' * (B : Int) + (rp' : Int)).toNat = T - QQ) ∧
+      (T < QQ → sp = S - 1 ∧ (cc' * (B : Int) + (rp' : Int)).toNat = T + (2 * S - 1) - QQ) := by
+  have hB := B_eq
+  unfold sqrtrem2Fix
+  dsimp only
+  rw [boolToNat_decide]
+  have hrp1 : wsub rp qq < B := by unfold wsub; exact Nat.mod_lt _ B_pos
+  have hval : ((cch : Int) - ((if rp < qq then 1 else 0 : Nat) + qh : Nat)) * (B : Int) + (wsub rp qq : Nat)
+      = (T : Int) - (QQ : Int) := by
+    unfold wsub
+    rw [B_eq] at *
+    by_cases h : rp < qq
+    · rw [if_pos h]; push_cast; omega
+    · rw [if_neg h]; push_cast; omega
+  generalize (cch : Int) - ((if rp < qq then 1 else 0 : Nat) + qh : Nat) = cc0 at *
+  generalize wsub rp qq = rp1 at *
+  by_cases hneg : T < QQ
+  · have hc : cc0 < 0 := by
+      by_contra hc
+      have : (0 : Int) ≤ cc0 * (B : Int) := Int.mul_nonneg (by omega) (by rw [hB]; norm_num)
+      omega
+    rw [if_pos hc]
+    have h2 := hC hneg
+    obtain ⟨rp', cc', e, v⟩ := sqrtrem2AddBack_spec S rp1 cc0 (T + (2 * S - 1) - QQ) hrp1 hS1 hS2
+      (by push_cast [Nat.cast_sub h2]; omega)
+    exact ⟨_, _, _, e, fun h => absurd hneg (Nat.not_lt.mpr h), fun _ => ⟨rfl, v⟩⟩
+  · have hle := Nat.le_of_not_lt hneg
+    have hc : ¬ cc0 < 0 := by
+      intro hc
+      have : cc0 * (B : Int) ≤ -1 * (B : Int) :=
+        Int.mul_le_mul_of_nonneg_right (by omega) (by rw [hB]; norm_num)
+      omega
+    rw [if_neg hc]
+    refine ⟨_, _, _, rfl, fun _ => ⟨Nat.mod_eq_of_lt (hA hle), ?_⟩, fun h => absurd h hneg⟩
+    have : cc0 * (B : Int) + (rp1 : Int) = ((T - QQ : Nat) : Int) := by
+      rw [hval, Nat.cast_sub hle]
+    rw [this, Int.toNat_natCast]
+
+
+theorem splitT (u a : Nat) : u / 4294967296 * 18446744073709551616 + (u * 4294967296 % 18446744073709551616 + a)
+    = u * 4294967296 + a := by omega
+
+/-- mpn_sqrtrem2 after the subtraction loop: `np1 = s² + r`, `r = qhl·s + r'`, `r' < s`. -/
+theorem sqrtrem2Tail_spec (np0 s r r' qhl : Nat) (hnp0 : np0 < B) (hs1 : 2147483648 ≤ s)
+    (hs2 : s < 4294967296) (hr : r ≤ 2 * s) (hql : qhl ≤ 2) (hr' : r = qhl * s + r') (hr's : r' < s)
+    (h2 : qhl = 2 → r' = 0) :
+    ∃ sp rp cc, sqrtrem2Tail np0 s r' qhl = (sp, rp, cc) ∧
+      sp * sp + (cc * (B : Int) + (rp : Int)).toNat = (s * s + r) * B + np0 ∧
+      (cc * (B : Int) + (rp : Int)).toNat ≤ 2 * sp := by
+  have hB := B_eq
+  have hs3 : 0 < 2 * s := by omega
+  obtain ⟨q0, u, hdm, hu, hq⟩ : ∃ q u, 2 * s * q + u = r' * 4294967296 + np0 / 4294967296 ∧ u < 2 * s ∧
+      (r' * 4294967296 + np0 / 4294967296) / (2 * s) = q :=
+    ⟨_, _, Nat.div_add_mod _ _, Nat.mod_lt _ hs3, rfl⟩
+  have hq31 : q0 < 2147483648 := by
+    by_contra hc
+    have : 2 * s * 2147483648 ≤ 2 * s * q0 := Nat.mul_le_mul_left _ (by omega)
+    rw [hB] at hnp0; omega
+  have hmask : np0 &&& (2 ^ 32 - 1) = np0 % 4294967296 := Nat.and_two_pow_sub_one_eq_mod np0 32
+  obtain ⟨qb, qh, hqb, hqh, hsum, hqb1, hqh1, hexcl⟩ : ∃ qb qh, qhl &&& 1 = qb ∧ qhl >>> 1 = qh ∧
+      qhl = qb + 2 * qh ∧ qb ≤ 1 ∧ qh ≤ 1 ∧ (qh = 1 → qb = 0) := by
+    have : qhl = 0 ∨ qhl = 1 ∨ qhl = 2 := by omega
+    rcases this with rfl | rfl | rfl
+    · exact ⟨0, 0, rfl, rfl, rfl, by omega, by omega, by omega⟩
+    · exact ⟨1, 0, rfl, rfl, rfl, by omega, by omega, by omega⟩
+    · exact ⟨0, 1, rfl, rfl, rfl, by omega, by omega, by omega⟩
+  -- when qhl = 2 the remainder was exactly 2s: the new quotient digit is 0
+  have hq0 : qh = 1 → q0 = 0 := by
+    intro h
+    have : r' = 0 := h2 (by omega)
+    subst this
+    by_contra hc
+    have : 2 * s * 1 ≤ 2 * s * q0 := Nat.mul_le_mul_left _ (by omega)
+    rw [hB] at hnp0; omega
+  have hdmQ : 2 * s * (q0 + qb * 2147483648 + qh * 4294967296) + u
+      = r * 4294967296 + np0 / 4294967296 := by
+    subst hr' hsum
+    have e : 2 * s * (q0 + qb * 2147483648 + qh * 4294967296)
+        = 2 * s * q0 + (qb + 2 * qh) * s * 4294967296 := by ring
+    rw [e]; nlinarith
+  obtain ⟨hQle, hA, hC⟩ := zstep 4294967296 s r (np0 / 4294967296) (np0 % 4294967296)
+    (q0 + qb * 2147483648 + qh * 4294967296) u (s * 4294967296 + (q0 + qb * 2147483648 + qh * 4294967296))
+    (by omega) hr (by rw [hB] at hnp0; omega) (by omega) hdmQ hu rfl
+  have hN : (s * s + r) * (4294967296 * 4294967296) + np0 / 4294967296 * 4294967296 + np0 % 4294967296
+      = (s * s + r) * B + np0 := by
+    generalize s * s + r = M
+    rw [hB]; omega
+  rw [hN] at hA hC
+  generalize hql' : q0 + qb * 2147483648 = ql at *
+  have hqllt : ql < 4294967296 := by omega
+  have hqlql : ql * ql < B := by
+    rw [hB]; have : ql * ql ≤ 4294967295 * 4294967295 := Nat.mul_le_mul (by omega) (by omega)
+    omega
+  have hQQ : ql * ql + qh * B = (ql + qh * 4294967296) * (ql + qh * 4294967296) := by
+    have : qh = 0 ∨ qh = 1 := by omega
+    rcases this with rfl | rfl
+    · simp
+    · have : ql = 0 := by have := hq0 rfl; have := hexcl rfl; omega
+      subst this; rw [hB]
+  generalize hQ : ql + qh * 4294967296 = Q at *
+  have hcomm : q0 * (2 * s) = 2 * s * q0 := Nat.mul_comm _ _
+  have e1 : (wshl r' 32 + np0 >>> 32) % B = r' * 4294967296 + np0 / 4294967296 := by
+    unfold wshl; simp only [Nat.shiftLeft_eq, Nat.shiftRight_eq_div_pow, B_eq] at *; omega
+  have e3 : (2 * s) % B = 2 * s := by rw [hB]; omega
+  have e4 : wsub (r' * 4294967296 + np0 / 4294967296) ((q0 * (2 * s)) % B) = u := by
+    unfold wsub; rw [B_eq] at *; omega
+  have e5 : (q0 + wshl qb 31) % B = ql := by
+    unfold wshl; simp only [Nat.shiftLeft_eq, hB]; omega
+  have e6 : (wshl ((s + qh) % B) 32 + ql) % B = (s * 4294967296 + Q) % B := by
+    unfold wshl; simp only [Nat.shiftLeft_eq, hB]; omega
+  have e8 : (wshl u 32 + np0 % 4294967296) % B = u * 4294967296 % B + np0 % 4294967296 := by
+    unfold wshl; simp only [Nat.shiftLeft_eq, hB]; omega
+  have e9 : (ql * ql) % B = ql * ql := Nat.mod_eq_of_lt hqlql
+  unfold sqrtrem2Tail
+  dsimp only
+  rw [hqb, hqh, e1, e3, hq, e4, e5, e6, hmask, e8, e9, Nat.shiftRight_eq_div_pow]
+  simp only [Nat.reducePow]
+  obtain ⟨sp, rp, cc, efix, fA, fC⟩ := sqrtrem2Fix_spec (s * 4294967296 + Q) (u / 4294967296)
+    (u * 4294967296 % B + np0 % 4294967296) (ql * ql) qh (u * 4294967296 + np0 % 4294967296) (Q * Q)
+    (by rw [hB]; omega) hqlql (by omega) (by rw [hB]; omega) (by rw [hB]; exact splitT _ _) hQQ
+    (by
+      intro hle
+      have : qh = 0 ∨ qh = 1 := by omega
+      rcases this with rfl | rfl
+      · rw [hB]; omega
+      · exfalso
+        have : ql = 0 := by have := hq0 rfl; have := hexcl rfl; omega
+        subst this
+        have hQv : Q = 4294967296 := by omega
+        subst hQv
+        rw [hB] at hnp0; omega)
+    (fun h => (hC h).2.1)
+  refine ⟨sp, rp, cc, efix, ?_⟩
+  by_cases hneg : u * 4294967296 + np0 % 4294967296 < Q * Q
+  · obtain ⟨c1, c2, c3, c4⟩ := hC hneg
+    obtain ⟨f1, f2⟩ := fC hneg
+    rw [f1, f2]; exact ⟨c3, c4⟩
+  · obtain ⟨c1, c2⟩ := hA (Nat.le_of_not_lt hneg)
+    obtain ⟨f1, f2⟩ := fA (Nat.le_of_not_lt hneg)
+    rw [f1, f2]; exact ⟨c1, c2⟩
+
+
+theorem sq_bounds32 (s r N : Nat) (h : s * s + r = N) (hr : r ≤ 2 * s) (h1 : 4611686018427387904 ≤ N)
+    (h2 : N < 18446744073709551616) : 2147483648 ≤ s ∧ s < 4294967296 := by
+  constructor
+  · by_contra hh
+    have h3 : s + 1 ≤ 2147483648 := by omega
+    have h4 : (s + 1) * (s + 1) ≤ 2147483648 * (s + 1) := Nat.mul_le_mul_right _ h3
+    have h5 : (s + 1) * (s + 1) = s * s + 2 * s + 1 := by ring
+    omega
+  · by_contra hh
+    have h3 : 4294967296 ≤ s := by omega
+    have h4 : 4294967296 * s ≤ s * s := Nat.mul_le_mul_right _ h3
+    omega
+
+/-- mpn_sqrtrem2 on a normalised two-limb operand: `{np0, np1} = sp² + cc·B + rp`, remainder ≤ 2·sp. -/
+theorem sqrtrem2_ex (np0 np1 : Nat) (h0 : np0 < B) (h1 : B / 4 ≤ np1) (h2 : np1 < B) :
+    ∃ sp rp cc, sqrtrem2 np0 np1 = (sp, rp, cc) ∧
+      sp * sp + (cc * (B : Int) + (rp : Int)).toNat = np1 * B + np0 ∧
+      (cc * (B : Int) + (rp : Int)).toNat ≤ 2 * sp := by
+  have hB := B_eq
+  obtain ⟨g1, g2⟩ := sqrtrem1_sq np1 h1 h2
+  unfold sqrtrem2
+  dsimp only
+  generalize (sqrtrem1 np1).1 = s at *
+  generalize (sqrtrem1 np1).2 = r at *
+  obtain ⟨b1, b2⟩ := sq_bounds32 s r np1 g1 g2 (by rw [hB] at h1; omega) (by rw [hB] at h2; exact h2)
+  obtain ⟨qhl, r', eSub, q1, q2, q3, q4⟩ := sqrtrem2Sub_spec s r (by omega) g2 b2
+  rw [eSub]
+  dsimp only
+  obtain ⟨sp, rp, cc, e, p1, p2⟩ := sqrtrem2Tail_spec np0 s r r' qhl h0 b1 b2 g2 q1 q2 q3 q4
+  rw [g1] at p1
+  exact ⟨sp, rp, cc, e, p1, p2⟩
+
+theorem sqrtrem2_spec : Sqrtrem2Spec := by
+  intro np0 np1 h0 h1 h2
+  obtain ⟨sp, rp, cc, e, p1, p2⟩ := sqrtrem2_ex np0 np1 h0 h1 h2
+  rw [e]
+  exact ⟨p1, p2⟩
+
+/-- mpn_dc_sqrtrem is correct on every normalised operand. -/
+theorem dcSpec : DcSpec := dcSpec_of_sqrtrem2 sqrtrem2_spec
+
+
 end Mpir.Root
